@@ -370,15 +370,19 @@ def corr_addwall(res, rng, n):
         c.totalDistance = lambda psi=None: 1.0
         c._reset_cached = lambda: None
 
-        class Stub:
+        class Stub(meshmod.MeshRegion):
+            def __init__(self):
+                pass
+
+        class Plain:
             pass
 
         st = Stub()
         st.contours = [c]
         st.connections = {"lower": None if lw else 1, "upper": None if uw else 1}
-        st.user_options = Stub()
+        st.user_options = Plain()
         st.user_options.wall_point_exclude_radius = float(rad)
-        st.equilibriumRegion = Stub()
+        st.equilibriumRegion = Plain()
         st.equilibriumRegion.psi = None
         info = (c, li, Point2D(float(lp), 0.0) if lw else None, ui, Point2D(float(up), 0.0) if uw else None)
 
@@ -401,6 +405,8 @@ def corr_addwall(res, rng, n):
         except IndexError:
             exp = "error"
             hist["error"] += 1
+        except Exception as e:  # the real code no longer runs on the stub: a broken correspondence, not a crash of the check
+            exp = "stub-failure:%s" % type(e).__name__
         lines.append("c11w %d %d %d %d %d %d %d %d %d %s" % (lw, uw, li, lp, ui, up, rad, si0, ei0, " ".join(map(str, vals))))
         expect.append(exp)
     res.extra.setdefault("inputs", {})["addPointAtWall"] = hist
@@ -422,10 +428,14 @@ def corr_mask(res, rng, n):
         if p1 == p2:
             continue
 
-        class Stub:
+        class Stub(meshmod.MeshRegion):
+            def __init__(self):
+                pass
+
+        class Plain:
             pass
 
-        st, eq = Stub(), Stub()
+        st, eq = Stub(), Plain()
         st.nx, st.ny = 1, 1
         # the mask is a property of the cell and the wall only: regions with and without targets are treated alike
         st.connections = {"lower": rng.choice([None, 3]), "upper": rng.choice([None, 4]), "inner": rng.choice([None, 1]), "outer": rng.choice([None, 2])}
@@ -435,8 +445,12 @@ def corr_mask(res, rng, n):
         st.Zxy.ylow = np.array([[p1[1], p2[1]]])
         eq.closed_wallarray = np.array(closed)
         eq.Rmin, eq.Rmax, eq.Zmin, eq.Zmax = 1.0, 3.0 + 1 / 32, 1.0, 2.0 + 1 / 16
-        meshmod.MeshRegion.calcPenaltyMask(st, eq)
-        val = float(st.penalty_mask[0, 0])
+        try:
+            meshmod.MeshRegion.calcPenaltyMask(st, eq)
+            val = float(st.penalty_mask[0, 0])
+        except Exception as e:  # as above
+            res.broken("calcPenaltyMask no longer runs on the stub region: %s" % type(e).__name__, {"error": str(e)[:200]})
+            break
         hist["0" if val == 0 else "1" if val == 1 else "fraction"] += 1
         p0 = ((eq.Rmax + eq.Rmin) / 2, (eq.Zmax + eq.Zmin) / 2)
         lines.append("c11p %s %s %s %s" % (fpts(closed), fpts([p0]), fpts([p1]), fpts([p2])))
